@@ -24,6 +24,7 @@ const (
 	c20MarkCbBegin = 10
 	c20MarkCbEnd   = 11
 	c20MarkCbMid   = 12 // only in the recycle-under-OnData scenario: a pause between Peek and ReadBytes
+	c20MarkFlush   = 13 // a user Flush begins (WriteBytes of one byte, then Flush)
 	// value of streamLocalHalfClosed (the state Close() moves an open stream to while a callback goroutine
 	// runs).  Kept numeric so that this harness also builds against a tree without that constant; the value
 	// is pinned by the model comparison (the CAS in Close() logs it).
@@ -43,6 +44,10 @@ type c20Case struct {
 	Script   [][2]int    `json:"script"` // per OnData invocation: bytes to consume, number of Close() calls inside it
 	Sync     []int       `json:"sync"`   // synchronous reads by the user BEFORE SetCallbacks: ReadBytes(k), k = 0: Peek
 	Deadlock bool        `json:"deadlock"` // every remaining thread spins in a cooperative wg.Wait
+	Ups      [][]int     `json:"ups"`      // user threads: each flushes these one-byte messages, one Flush per byte
+	InFl     []int       `json:"infl"`     // per OnData invocation: Flush calls made inside it after its Close() calls
+	Ures     [][]bool    `json:"ures"`     // per user thread (the Flushes made inside OnData last): did Flush return nil
+	NData    int64       `json:"ndata"`    // data elements put on the send queue
 	Steps    []vsStepRec `json:"steps"`
 	Offers   [][]int     `json:"offers"`
 	Consumed []int       `json:"consumed"`
@@ -76,6 +81,10 @@ type c20Cb struct {
 	consumed    []int
 	closeInside int
 	syncN       int // bytes consumed synchronously before the callbacks were installed
+	infl        []int
+	inres       []bool
+	flush       func(b byte, inside bool) bool
+	closeRet    func()
 	midYield    bool
 	bm          *bufferManager
 	offs        *[]uint32 // shared-memory offsets of the arrivals, in order
@@ -131,6 +140,12 @@ func (cb *c20Cb) OnData(r BufferReader) {
 	for i := 0; i < cl; i++ {
 		cb.closeInside++
 		cb.stream.Close()
+		cb.closeRet()
+	}
+	if idx := len(cb.offers) - 1; idx < len(cb.infl) {
+		for i := 0; i < cb.infl[idx]; i++ {
+			cb.inres = append(cb.inres, cb.flush(9, true))
+		}
 	}
 	c20Mark(c20MarkCbEnd)
 	cb.running--
@@ -148,6 +163,11 @@ func c20NewEnv() *c20Env {
 	conf.QueueCap = 4096
 	conf.InitializeTimeout = 30 * time.Second // the default 1 s handshake bound is too short on a loaded machine
 	c, s := newClientServerWithNoCheck(conf)
+	// the client's send queue is replaced by a private one that nobody consumes: what the stream under test sends
+	// (data and close elements) is counted here and never reaches the peer session, whose event loop therefore
+	// never runs instrumented stream code concurrently with the scheduler
+	priv := createQueueFromBytes(make([]byte, queueHeaderLength+8192*queueElementLen), 8192)
+	c.queueManager.sendQueue = priv
 	return &c20Env{client: c, server: s}
 }
 func (e *c20Env) close() {
@@ -209,7 +229,35 @@ func c20Run(env *c20Env, c c20Case, mk func() vsChooser, maxSteps int) c20Case {
 	vsAddRegion(unsafe.Pointer(&s.state), 4)
 	vsAddRegion(unsafe.Pointer(&s.callbackInProcess), 4)
 	vsAddRegion(unsafe.Pointer(&s.callbackCloseState), 4)
-	tail0 := atomic.LoadInt64(env.client.queueManager.sendQueue.tail)
+	for { // start from an empty private send queue
+		if _, err := env.client.queueManager.sendQueue.pop(); err != nil {
+			break
+		}
+	}
+	firstCloseRet := -1 // step during which the first Close() returned
+	var flushLog []struct {
+		step int
+		ok   bool
+		cls  string
+	}
+	cb.closeRet = func() {
+		if firstCloseRet < 0 {
+			firstCloseRet = stepNo
+		}
+	}
+	cb.infl = c.InFl
+	cb.flush = func(b byte, inside bool) bool {
+		c20Mark(c20MarkFlush)
+		at := stepNo
+		_, _ = s.BufferWriter().WriteBytes([]byte{b})
+		err := s.Flush(false)
+		flushLog = append(flushLog, struct {
+			step int
+			ok   bool
+			cls  string
+		}{at, err == nil, c20ErrClass(err)})
+		return err == nil
+	}
 	vs.active = true
 	// thread 0: the event loop
 	vsSpawn(func() {
@@ -233,6 +281,7 @@ func c20Run(env *c20Env, c c20Case, mk func() vsChooser, maxSteps int) c20Case {
 		vsSpawn(func() {
 			_ = s.Close()
 			closeRet[i] = true
+			cb.closeRet()
 		})
 	}
 	syncTid := -1
@@ -282,6 +331,15 @@ func c20Run(env *c20Env, c c20Case, mk func() vsChooser, maxSteps int) c20Case {
 		})
 	}
 	_ = syncTid
+	ures := make([][]bool, len(c.Ups))
+	for u := range c.Ups {
+		u := u
+		vsSpawn(func() {
+			for _, b := range c.Ups[u] {
+				ures[u] = append(ures[u], cb.flush(byte(b), false))
+			}
+		})
+	}
 	base := len(vs.threads)
 	var states []uint32
 	// stop driving once nothing but blocked wg.Wait polls has happened for a while (a deadlock of the code under test)
@@ -334,14 +392,38 @@ func c20Run(env *c20Env, c c20Case, mk func() vsChooser, maxSteps int) c20Case {
 	if env.client.getStreamById(id) != nil {
 		inTable = 1
 	}
-	// close elements put on the send queue (the payload is real shared memory, so the stream never enters
-	// fallback state and its close notification always travels through the queue)
-	nsent := atomic.LoadInt64(env.client.queueManager.sendQueue.tail) - tail0
+	// what the stream put on the (private) send queue: close elements and data elements.  (The payload is real
+	// shared memory, so the stream never enters fallback state and everything travels through the queue.)
+	nsent, ndata := int64(0), int64(0)
+	for {
+		e, err := env.client.queueManager.sendQueue.pop()
+		if err != nil {
+			break
+		}
+		if e.status&0xff == uint32(streamClosed) {
+			nsent++
+		} else {
+			ndata++
+			if sl, err := env.client.bufferManager.readBufferSlice(e.offsetInShmBuf); err == nil {
+				env.client.bufferManager.recycleBuffers(sl)
+			}
+		}
+	}
+	c.NData = ndata
+	c.Ures = ures
+	if len(c.InFl) > 0 {
+		c.Ures = append(c.Ures, cb.inres)
+	}
+	for i := range c.Ures {
+		if c.Ures[i] == nil {
+			c.Ures[i] = []bool{}
+		}
+	}
 	if env.server.IsClosed() || env.client.IsClosed() {
 		c.Feat = append(c.Feat, fmt.Sprintf("SESSION-DOWN(server closed=%v, client closed=%v)", env.server.IsClosed(), env.client.IsClosed()))
 	}
 	c.Final = []int64{int64(atomic.LoadUint32(&s.state)), int64(atomic.LoadUint32(&s.callbackInProcess)),
-		int64(atomic.LoadUint32(&s.callbackCloseState)), inTable, int64(cb.local), int64(cb.remote), nsent}
+		int64(atomic.LoadUint32(&s.callbackCloseState)), inTable, int64(cb.local), int64(cb.remote), nsent, ndata}
 	c.Recv = []int{}
 	if n := s.recvBuf.Len(); n > 0 {
 		p, _ := s.recvBuf.Peek(n)
@@ -488,6 +570,15 @@ func c20Run(env *c20Env, c c20Case, mk func() vsChooser, maxSteps int) c20Case {
 				o10[fmt.Sprintf("monotone: state moved from %d to %d", prev, x)] = true
 			}
 			prev = x
+		}
+	}
+	for _, f := range flushLog {
+		if firstCloseRet >= 0 && f.step > firstCloseRet {
+			if f.ok {
+				o10["SIG:C10:Flush-after-a-returned-Close-succeeds|finality: a Flush issued after a Close() had returned returned nil and its bytes were queued for the peer (state then: one of the non-open states)"] = true
+			} else if f.cls != "ErrStreamClosed" {
+				o10["finality: a Flush issued after a Close() had returned failed with "+f.cls+" instead of ErrStreamClosed"] = true
+			}
 		}
 	}
 	if c.Deadlock {
@@ -719,6 +810,28 @@ func c20GenScript(r *vrand, closeInsidePct int) [][2]int {
 	return sc
 }
 
+// user Flush threads, and Flush calls inside the OnData invocations that call Close()
+func c20GenFlushes(r *vrand, c *c20Case, pct int) {
+	// (a stream has ONE writer: sendBuf is not shared between goroutines — either a user thread flushes, or the
+	// OnData invocations do, never both in one case)
+	inside := false
+	for i, e := range c.Script {
+		if e[1] > 0 && r.chance(60) {
+			for len(c.InFl) <= i {
+				c.InFl = append(c.InFl, 0)
+			}
+			c.InFl[i] = 1 + r.intn(2)
+			inside = true
+		}
+	}
+	if !inside && r.chance(pct) {
+		c.Ups = [][]int{{9}}
+		if r.chance(40) {
+			c.Ups[0] = []int{9, 8}
+		}
+	}
+}
+
 func c20Strategy(r *vrand, id int, nthreads int) (string, func() vsChooser) {
 	switch id % 4 {
 	case 0:
@@ -753,7 +866,8 @@ func TestVerif_C20(t *testing.T) {
 			c.NCl = 2
 		}
 		c.Script = c20GenScript(r, 8)
-		strat, mk := c20Strategy(r, id, 1+c.NCl)
+		c20GenFlushes(r, &c, 25)
+		strat, mk := c20Strategy(r, id, 1+c.NCl+len(c.Ups))
 		c.Strat = strat
 		o.emit(c20Run(env, c, mk, 3000))
 	}
